@@ -74,6 +74,9 @@ type c10State struct {
 	cancelled   bool          // set after cancel() has returned
 	cancelledAt time.Duration // when cancel() had returned
 	wg          sync.WaitGroup // cancelling goroutines
+	// onReturn, if set, runs on the attempt's goroutine right before attempt idx returns to
+	// the pool (after its End stamp was taken): used to arrange controlled schedules
+	onReturn func(st *c10State, idx int)
 }
 
 var (
@@ -188,6 +191,9 @@ func c10Transport(r *http.Request, _ *http.Client) (*http.Response, error) {
 	st.attempts[idx].BodyLen = n
 	async := st.asyncAfter == idx
 	st.mu.Unlock()
+	if st.onReturn != nil {
+		st.onReturn(st, idx)
+	}
 	if async {
 		st.askCancel()
 		st.wg.Add(1)
@@ -336,10 +342,15 @@ var c10Payload = []byte("payload-of-the-client-request")
 
 // c10Do sends one client request through Proxy.Handle with the given script.
 func c10Do(p *Proxy, script []c10Step, stream bool, asyncAfter int, panicSite func() string) c10Result {
+	return c10DoHook(p, script, stream, asyncAfter, panicSite, nil)
+}
+
+// c10DoHook is c10Do with a hook that runs right before an attempt returns to the pool.
+func c10DoHook(p *Proxy, script []c10Step, stream bool, asyncAfter int, panicSite func() string, onReturn func(st *c10State, idx int)) c10Result {
 	id := fmt.Sprintf("q%d", atomic.AddUint64(&c10NextID, 1))
 	cctx, cancel := stdcontext.WithCancel(stdcontext.Background())
 	defer cancel()
-	st := &c10State{t0: time.Now(), script: script, cancel: cancel, asyncAfter: asyncAfter}
+	st := &c10State{t0: time.Now(), script: script, cancel: cancel, asyncAfter: asyncAfter, onReturn: onReturn}
 	c10States.Store(id, st)
 	defer c10States.Delete(id)
 
